@@ -132,7 +132,22 @@ func vpH_c15_scalar() {
 }
 
 // all subsets of the ten kind keys plus one arbitrary extra key
+// vpC15Earlier: the rule table has no memory - what was parsed earlier in the
+// same process (in particular steps that failed to get a kind) does not change
+// the decision for the next step.
+func vpC15Earlier(max int) {
+	switch vpInt(0, max) {
+	case 1:
+		_, _ = stepFromMap(vpMapOf("label", "x")) // no type, no kind key: inference fails
+	case 2:
+		_, _ = stepFromMap(vpMapOf("type", "nope", "command", "c")) // unknown type
+	case 3:
+		_, _ = NewScalarStep("mystery") // unknown scalar
+	}
+}
+
 func vpH_c15_infer() {
+	vpC15Earlier(1)
 	o := ordered.NewMap[string, any](0)
 	var present [10]bool
 	// extra key first or last (position must not matter)
@@ -195,6 +210,7 @@ func vpValueFor(k string, illTyped bool) any {
 
 // stepFromMap end to end: type present/absent, up to `keys` kind keys, extra keys
 func vpH_c15_frommap() {
+	vpC15Earlier(3)
 	o := ordered.NewMap[string, any](0)
 	typeMode := vpInt(0, 2) // 0 absent, 1 string, 2 non-string
 	tval := ""
